@@ -662,6 +662,7 @@ compact_theta_sketch_alloc<A> compact_theta_sketch_alloc<A>::deserialize_v3(
       if (preamble_longs > 2) theta = read<uint64_t>(is);
     }
   }
+  if (!is.good()) throw std::runtime_error("error reading from std::istream");
   std::vector<uint64_t, A> entries(num_entries, 0, allocator);
   if (!is_empty) read(is, entries.data(), sizeof(uint64_t) * entries.size());
   const bool is_ordered = flags_byte & (1 << flags::IS_ORDERED);
@@ -687,6 +688,7 @@ compact_theta_sketch_alloc<A> compact_theta_sketch_alloc<A>::deserialize_v4(
   for (unsigned i = 0; i < num_entries_bytes; ++i) {
     num_entries |= read<uint8_t>(is) << (i << 3);
   }
+  if (!is.good()) throw std::runtime_error("error reading from std::istream");
   vector_bytes buffer(entry_bits, 0, allocator); // block of 8 entries takes entry_bits bytes
   std::vector<uint64_t, A> entries(num_entries, 0, allocator);
 
